@@ -111,9 +111,6 @@ func checkRender(q string, err error, pos int, pad int, setPad bool) string {
 
 func checkC17(c *c17Case) (msg string, nontrivial bool, labels []string) {
 	q := c.Query
-	if strings.ContainsAny(q, "\n\r") {
-		return "", false, []string{"skipped-multiline"}
-	}
 	pad := 7
 	setPad := false
 	old := kvql.DefaultErrorPadding
@@ -179,7 +176,10 @@ func checkC17(c *c17Case) (msg string, nontrivial bool, labels []string) {
 		if pos != -1 && (pos < 0 || pos >= len(q)) {
 			return fmt.Sprintf("query %q (%d bytes): error %q carries position %d, outside the query", q, len(q), errMsg(err), pos), true, labels
 		}
-		if res.BuildErr != nil && isSyntax {
+		_ = isSyntax
+		if res.BuildErr != nil {
+			// whatever its Go type, an error returned by BuildPlan was raised
+			// while parsing, type-checking or planning
 			if pos != -1 && !starts[pos] {
 				return fmt.Sprintf("query %q: plan-time error %q carries position %d, which is not the start of a token (token starts %v)", q, errMsg(err), pos, sortedInts(starts)), true, labels
 			}
@@ -187,7 +187,11 @@ func checkC17(c *c17Case) (msg string, nontrivial bool, labels []string) {
 		} else {
 			labels = append(labels, "run-error")
 		}
-		if m := checkRender(q, err, pos, pad, setPad); m != "" {
+		if strings.ContainsAny(q, "\r\n") {
+			// a statement written on several lines: the position is checked,
+			// the rendering is line oriented (level note)
+			labels = append(labels, "multi-line-position-only")
+		} else if m := checkRender(q, err, pos, pad, setPad); m != "" {
 			return m, true, labels
 		}
 		if pos >= 0 && (len(q) > 70 || lead > 0) {
@@ -318,6 +322,8 @@ func widenSpaces(rt *rapid.T, q string) string {
 	// one statement in four gets such a blank behind every space, so that
 	// whichever token the error lands on is preceded by one
 	oddEverywhere := rapid.IntRange(0, 3).Draw(rt, "oddBlankEverywhere") == 0
+	// one statement in five is written over several lines (CRLF or LF, tabs)
+	lineEnds := rapid.IntRange(0, 4).Draw(rt, "lineEnds") == 0
 	for i := 0; i < len(q); i++ {
 		ch := q[i]
 		switch {
@@ -330,6 +336,11 @@ func widenSpaces(rt *rapid.T, q string) string {
 		case ch == ' ':
 			if rapid.IntRange(0, 3).Draw(rt, "widen") == 0 {
 				sb.WriteString(strings.Repeat(" ", rapid.IntRange(1, 3).Draw(rt, "extraBlanks")))
+			}
+			if lineEnds && rapid.IntRange(0, 3).Draw(rt, "lineEnd") == 0 {
+				// the statement continues on the next line (or behind a tab)
+				sb.WriteString(rapid.SampledFrom([]string{"\r\n", "\n", "\t", "\r\n\t", "\n\n"}).Draw(rt, "lineEndText"))
+				continue
 			}
 			if oddEverywhere || rapid.IntRange(0, 15).Draw(rt, "oddBlank") == 0 {
 				// a blank the documentation does not mention, behind a space
